@@ -5,6 +5,7 @@ from .interp import Interp, Terminal
 
 
 def arena_ref(mut=True):
+    # the one arena of the call
     return VRef(("arena",), (), mut)
 
 
